@@ -267,7 +267,7 @@ Section NoCollision.
       destruct (rules2_box UQ rules Hwf r2 c' Hr2 Hc) as [c [-> [_ Hall]]].
       apply cleanup_entry in Hin as [Hin Hnf]. now apply (Hcover c a r0 ai). }
     assert (Hgood : forall e, In e final -> box_good UQ rules2 (fst e)).
-    { apply (loop_boxes UQ rules2 Hwf2 Hb2 rules2 0%nat init_map); [apply incl_refl|].
+    { apply (loop_boxes UQ eq_refl rules2 Hwf2 Hb2 rules2 0%nat init_map); [apply incl_refl|].
       intros e [<-|[]]. split; [apply wf_box_nil|intros a r []]. }
     apply (condsets_nodup env Henv rules2 Hc2 (map fst (filter nonzero sorted)) css Hnd); [|exact Hcs].
     rewrite Forall_forall. intros b Hb. apply in_map_iff in Hb as [e [<- He]]. apply filter_In in He as [He _].
